@@ -199,10 +199,12 @@ func c12(r *core.Run) {
 	r.Rule("T1", "writes only inside one update closure: Set/SetEntry/Delete on a badger.Txn are invoked on the parameter of a func literal passed directly to DB.Update (or a helper all of whose callers pass such a value); the txn never goes to a goroutine", 5)
 	r.Rule("T2", "one transaction per mutation, ack after commit: Create/Update/Delete call DB.Update exactly once on every path to a nil return, never twice, and the nil return is on the err==nil edge of that call", 6)
 	r.Rule("I1", "Init seeds once: a single DB.Update whose closure reads the marker first (dominating the seed callback and every write), returns on the found edge without writing, writes the marker on the same transaction after all seeds, and skips ids that already exist", 6)
+	r.Rule("I2", "Init announces what it wrote: the seeds handed to the change listeners are collected only after their database write, so an id skipped because it already holds a value is not announced", 1)
 	r.Rule("X1", "rebuild: every index prefix is dropped before the single re-scan transaction, the dropped prefix is the index's own query prefix, and nil keys are not written", 3)
 
 	n := txnRule(r, "T1", rel)
 	r.Analysed["txn_write_sites"] = n
+	c12InitAnnounce(r, "I2", rel)
 
 	// ---- T2 --------------------------------------------------------------
 	for _, name := range []string{"Create", "Update", "Delete"} {
@@ -398,7 +400,7 @@ func c12(r *core.Run) {
 	}
 	var drop, upd ssa.CallInstruction
 	nUpd := 0
-	for _, c := range core.Calls(rb) {
+	for _, c := range helperCalls(p, rb) {
 		if isBadgerCall(c, "DB", "DropPrefix") {
 			drop = c
 		}
@@ -407,7 +409,7 @@ func c12(r *core.Run) {
 			nUpd++
 		}
 	}
-	r.Check(drop != nil && upd != nil && nUpd == 1 && core.Reaches(drop, upd) && !core.Reaches(upd, drop), "X1", core.FuncName(rb), "drop-before-single-rescan", p.Pos(rb.Pos()), "all index prefixes are dropped before the one re-scan transaction", "indexes are not dropped before a single re-scan transaction")
+	r.Check(drop != nil && upd != nil && nUpd == 1 && p.ReachesIn(rb, drop, upd) && !p.ReachesIn(rb, upd, drop), "X1", core.FuncName(rb), "drop-before-single-rescan", p.Pos(rb.Pos()), "all index prefixes are dropped before the one re-scan transaction", "indexes are not dropped before a single re-scan transaction")
 	if drop != nil {
 		// argument: getQuery(nil)
 		argOK := false
@@ -472,9 +474,11 @@ func c13(r *core.Run) {
 	r.Rule("D1", "iteration direction: when the iterator options' Reverse can be true, the key passed to Seek is not the very value passed to ValidForPrefix", 1)
 	r.Rule("B1", "before-values are the stored values (shared with C11.K2): the value cached in a store transaction is dead or refreshed by every mutation; index deltas are computed from the before-value a mutation reports, so a stale one deletes the wrong entry and orphans the right one", 1)
 	r.Rule("W1", "window guards: limit==0 returns an empty result before the database is touched; a negative limit is replaced by max-int", 2)
+	r.Rule("K5", "the index only learns of values that are stored (shared with C12.I2): the index is maintained from the store's change notifications, and Init announces as created only the seeds it actually wrote (every insertion into the announced collection follows a database write); announcing a skipped seed leaves a phantom index entry", 1)
 	r.Rule("K4", "keys handed to a transaction are not written again: BadgerDB keeps the key slice of a pending Set / Delete until commit, so a []byte passed as key to a transaction write is never afterwards passed to a parameter through which the callee may write (a key builder reusing one scratch buffer for the delete key and the set key turns the pending delete into a delete of the new key)", 2)
 
 	c13KeyPrivacy(r, rel)
+	c12InitAnnounce(r, "K5", rel)
 	// K1
 	iro := resolveIdxRoles(p, rel)
 	gk, gq := iro.getKey, iro.getQuery
@@ -534,13 +538,15 @@ func c13(r *core.Run) {
 	}
 	// namelen = len(Name)+1
 	nameLenOK := false
-	for _, b := range fc.Blocks {
-		for _, in := range b.Instrs {
-			if bo, ok := in.(*ssa.BinOp); ok && bo.Op == token.ADD {
-				if c, ok := core.ConstInt(bo.Y); ok && c == 1 {
-					if cl, ok := bo.X.(*ssa.Call); ok && core.CalleeName(cl) == "builtin:len" {
-						if f, ok := core.LoadedField(cl.Call.Args[0]); ok && f.Name == "Name" {
-							nameLenOK = true
+	for _, f2 := range p.Scope(fc) {
+		for _, b := range f2.Blocks {
+			for _, in := range b.Instrs {
+				if bo, ok := in.(*ssa.BinOp); ok && bo.Op == token.ADD {
+					if c, ok := core.ConstInt(bo.Y); ok && c == 1 {
+						if cl, ok := bo.X.(*ssa.Call); ok && core.CalleeName(cl) == "builtin:len" {
+							if f, ok := core.LoadedField(cl.Call.Args[0]); ok && f.Name == "Name" {
+								nameLenOK = true
+							}
 						}
 					}
 				}
@@ -556,7 +562,7 @@ func c13(r *core.Run) {
 		r.Unres("K2", "updateIndex/handleChange", "missing")
 		return
 	}
-	for _, f2 := range append([]*ssa.Function{ui}, txnBodies(ui)...) {
+	for _, f2 := range append([]*ssa.Function{ui}, txnUnit(p, ui)...) {
 		for _, c := range core.Calls(f2) {
 			if !isBadgerCall(c, "Txn", "Set") {
 				continue
@@ -593,6 +599,21 @@ func c13(r *core.Run) {
 				}
 			}
 		}
+		// per-index steps may live in private helpers of the scan
+		{
+			seen := map[*ssa.Function]bool{}
+			for _, f2 := range rbFns {
+				seen[f2] = true
+			}
+			for i := 0; i < len(rbFns); i++ {
+				for _, h := range p.Helpers(rbFns[i]) {
+					if !seen[h] {
+						seen[h] = true
+						rbFns = append(rbFns, h)
+					}
+				}
+			}
+		}
 		for _, f2 := range rbFns {
 			for _, c := range core.Calls(f2) {
 				if isBadgerCall(c, "Txn", "Set") {
@@ -609,7 +630,7 @@ func c13(r *core.Run) {
 		}
 	}
 	// K3: index maintenance keeps nil ("not indexed") apart from an empty key
-	for _, f2 := range txnBodies(ui) {
+	for _, f2 := range txnUnit(p, ui) {
 		c, g, bn, _ := equalGuards(f2)
 		if c == 0 {
 			continue
@@ -952,11 +973,76 @@ func c14(r *core.Run) {
 		r.Check(okCommit && okMsg && okFlag, "N1", core.FuncName(ui), "fan-out-after-commit-and-only-if-changed", p.InstrPos(c), "callbacks run only after the index transaction committed without per-key errors and some key changed", fmt.Sprintf("fan-out not properly guarded: afterCommit=%v noKeyErrors=%v changedFlag=%v", okCommit, okMsg, okFlag))
 	}
 	// the flag's true-store lies behind the changed-key edge (not reachable on the unchanged 'continue' path)
+	// changedOn(f2, at): `at` (the flag store, or a `return true` of a per-index helper) follows an
+	// index write and is not reachable from the unchanged-key outcome of the predicate
+	var changedOn func(f2 *ssa.Function, at ssa.Instruction) bool
+	changedOn = func(f2 *ssa.Function, at ssa.Instruction) bool {
+		follows := false
+		for _, c := range core.Calls(f2) {
+			if isTxnWrite(c) && core.Reaches(c, at) {
+				follows = true
+			}
+		}
+		eqReaches := false
+		for _, c := range keyPredicateCalls(f2) {
+			if c.Value().Referrers() == nil {
+				continue
+			}
+			for _, rf := range *c.Value().Referrers() {
+				if iff, ok := rf.(*ssa.If); ok {
+					if reachAvoiding(iff.Block().Succs[0], at.Block(), func(bb *ssa.BasicBlock) bool {
+						for _, i2 := range bb.Instrs {
+							if cc, ok := i2.(ssa.CallInstruction); ok && isTxnWrite(cc) {
+								return true
+							}
+						}
+						return false
+					}, rangeLoopHead(f2)) {
+						eqReaches = true
+					}
+				}
+			}
+		}
+		return follows && !eqReaches
+	}
 	for _, f2 := range txnBodies(ui) {
 		for _, b := range f2.Blocks {
 			for _, in := range b.Instrs {
 				st, ok := in.(*ssa.Store)
 				if !ok || !isConstBool(st.Val, true) {
+					continue
+				}
+				// the flag is set from the bool result of a per-index helper: the helper must report
+				// true only where it rewrote the entry
+				viaHelper, helperOK := false, true
+				for _, ed := range dominatingEdges(st) {
+					cnd, succ := ed.Norm()
+					var hc *ssa.Call
+					idx := 0
+					switch x := cnd.(type) {
+					case *ssa.Call:
+						hc = x
+					case *ssa.Extract:
+						if c, ok := x.Tuple.(*ssa.Call); ok {
+							hc, idx = c, x.Index
+						}
+					}
+					if hc == nil || succ != 0 {
+						continue
+					}
+					cal := hc.Common().StaticCallee()
+					if cal == nil || len(cal.Blocks) == 0 || cal.Pkg != f2.Pkg || len(keyPredicateCalls(cal)) == 0 {
+						continue
+					}
+					viaHelper = true
+					for _, ret := range core.Returns(cal) {
+						if idx < len(ret.Results) && !isConstBool(ret.Results[idx], false) && !changedOn(cal, ret) {
+							helperOK = false
+						}
+					}
+				}
+				if viaHelper {
+					r.Check(helperOK, "N1", core.FuncName(f2), "updated=true-only-where-a-key-changed", p.InstrPos(st), "the changed flag is set only where the per-index helper reports a rewritten entry", "the changed flag can be set on the unchanged-key path: subscribers are notified for mutations that change no index key")
 					continue
 				}
 				// dominated by the not-unchanged outcome: i.e. NOT reachable from the blocks where unchanged was concluded.
@@ -1001,7 +1087,7 @@ func c14(r *core.Run) {
 	}
 	// N2
 	var uiCl *ssa.Function
-	for _, f2 := range txnBodies(ui) {
+	for _, f2 := range txnUnit(p, ui) {
 		if len(keyPredicateCalls(f2)) > 0 {
 			uiCl = f2
 		}
@@ -1637,6 +1723,24 @@ func resolveIdxRoles(p *core.Prog, rel string) idxRoles {
 // txnBodies: the functions that run as part of fn's database transactions and
 // closures: its func literals, and methods handed to DB.Update / DB.View as
 // method values (with their own literals).
+// txnUnit: the transaction bodies of fn together with the private helpers they call.
+func txnUnit(p *core.Prog, fn *ssa.Function) []*ssa.Function {
+	out := txnBodies(fn)
+	seen := map[*ssa.Function]bool{fn: true}
+	for _, f := range out {
+		seen[f] = true
+	}
+	for i := 0; i < len(out); i++ {
+		for _, h := range p.Helpers(out[i]) {
+			if !seen[h] {
+				seen[h] = true
+				out = append(out, h)
+			}
+		}
+	}
+	return out
+}
+
 func txnBodies(fn *ssa.Function) []*ssa.Function {
 	seen := map[*ssa.Function]bool{}
 	var out []*ssa.Function
@@ -1796,4 +1900,103 @@ func c13KeyPrivacy(r *core.Run, rel string) {
 		}
 	}
 	r.Analysed["txn_writes_with_slice_key"] = n
+}
+
+// c12InitAnnounce: Init announces (OnChange, before = nil) only the seeds it
+// wrote. The values handed to the change fan-out come from ranging over a map;
+// every insertion into that map must follow a database write in the same
+// function (the "key not found -> write" path), otherwise an id that Init
+// skipped because a value already exists is announced as created with a value
+// that is not stored - and every index then holds a phantom entry for it.
+func c12InitAnnounce(r *core.Run, rule, rel string) {
+	p := r.P
+	init := methodNamed(p, rel, "Store", "Init")
+	if init == nil {
+		r.Unres(rule, "Store.Init", "missing")
+		return
+	}
+	fan := fanoutFuncs(p, rel, "OnChange")
+	lf := listenerFieldOf(p, rel, "Store", "OnChange")
+	mayWrite := mayExec(p.FuncsOfPkg(rel), func(in ssa.Instruction) bool {
+		c, ok := in.(ssa.CallInstruction)
+		return ok && isTxnWrite(c)
+	})
+	unit := append([]*ssa.Function{init}, txnUnit(p, init)...)
+	n := 0
+	for _, f2 := range unit {
+		for _, c := range core.Calls(f2) {
+			var args []ssa.Value
+			if cal := c.Common().StaticCallee(); cal != nil && fan[cal] {
+				args = c.Common().Args[1:]
+			} else if core.IsDynamic(c) && len(c.Common().Args) == 3 {
+				if u, ok := c.Common().Value.(*ssa.UnOp); ok {
+					if ia, ok := u.X.(*ssa.IndexAddr); ok {
+						if f, ok := core.LoadedField(ia.X); ok && f == lf && lf.Name != "" {
+							args = c.Common().Args
+						}
+					}
+				}
+			}
+			if len(args) < 3 {
+				continue
+			}
+			// the ranged map behind the announced id / value
+			var m ssa.Value
+			for _, a := range []ssa.Value{args[0], args[2]} {
+				if ex, ok := core.Strip(a).(*ssa.Extract); ok {
+					if nx, ok := ex.Tuple.(*ssa.Next); ok {
+						if rg, ok := nx.Iter.(*ssa.Range); ok {
+							m = rg.X
+						}
+					}
+				}
+			}
+			if m == nil {
+				continue
+			}
+			n++
+			bad := ""
+			for _, f3 := range unit {
+				for _, b := range f3.Blocks {
+					for _, in := range b.Instrs {
+						mu, ok := in.(*ssa.MapUpdate)
+						if !ok || !(mu.Map == m || sameRoot(mu.Map, m) || sameCellAcrossClosures(mu.Map, m)) {
+							continue
+						}
+						after := false
+						for _, c2 := range core.Calls(f3) {
+							cal := c2.Common().StaticCallee()
+							if (isTxnWrite(c2) || (cal != nil && mayWrite[cal])) && core.Dominates(c2, mu) {
+								after = true
+							}
+						}
+						if !after {
+							bad = p.InstrPos(mu)
+						}
+					}
+				}
+			}
+			r.Check(bad == "", rule, core.FuncName(f2), "announces-only-what-it-wrote", p.InstrPos(c), "the announced seeds are collected only after their database write", "Init announces entries collected at "+bad+" without a preceding database write: a seed skipped because its id already holds a value is announced as created with a value that is not stored (change listeners - and through them every index - see a phantom value)")
+		}
+	}
+	if n == 0 {
+		r.Bad(rule, core.FuncName(init), "announces-only-what-it-wrote", p.Pos(init.Pos()), "Init announces nothing it wrote (no change fan-out over the written seeds)")
+	}
+}
+
+// sameCellAcrossClosures: a and b are loads of one local variable, one of them
+// possibly through a closure's free variable.
+func sameCellAcrossClosures(a, b ssa.Value) bool {
+	cell := func(v ssa.Value) ssa.Value {
+		u, ok := v.(*ssa.UnOp)
+		if !ok || u.Op != token.MUL {
+			return nil
+		}
+		if fv, ok := u.X.(*ssa.FreeVar); ok {
+			return core.BindingOf(fv)
+		}
+		return u.X
+	}
+	ca, cb := cell(a), cell(b)
+	return ca != nil && ca == cb
 }
